@@ -263,6 +263,7 @@ def check_config(prop, cfg, ctx, validate=True, want_smt2=0):
                         break
                     if r != 'sat':
                         rec['undecided'] += 1
+                        rec.setdefault('undecided_names', []).append(name)
                         break
                     # ... and ask for a witness made of real doubles only when there is a counterexample
                     if dbl and not inp.all_doubles(inp.concretise(m)):
